@@ -539,6 +539,12 @@ def dec_inputs(d):
     return {k: de(v) for k, v in d.items()}
 
 
+def _exc_name(e):
+    """exception class name as compared between the symbolic and the native run (the instrumented code reads an unbound local
+    through a name look-up: NameError where python itself raises its subclass UnboundLocalError)"""
+    return "NameError" if isinstance(e, NameError) else type(e).__name__
+
+
 def run_native(fn, params, inputs, active, lenient=False):
     """Run harness natively on concrete inputs.  Returns dict(outcome, checks, obs, known).
     lenient: inputs the symbolic run had not declared yet get a default value (concolic completion of a cut path)."""
@@ -555,7 +561,7 @@ def run_native(fn, params, inputs, active, lenient=False):
         except PathAbort:
             outcome = "abort"
         except Exception as e:
-            outcome = "exc:" + type(e).__name__
+            outcome = "exc:" + _exc_name(e)
             detail = "".join(traceback.format_exception_only(type(e), e)).strip()[:300]
         finally:
             ctx.cleanup()
@@ -630,7 +636,7 @@ def run_instance(inst):
                 except (Unsupported, KeyError):
                     pass
                 continue
-            okey = "ok" if kind == "ok" else "exc:" + type(out[1]).__name__
+            okey = "ok" if kind == "ok" else "exc:" + _exc_name(out[1])
             res["outcomes"][okey] = res["outcomes"].get(okey, 0) + 1
             in_known = list(ctx.known_hits)
             for fid in in_known:
@@ -638,7 +644,7 @@ def run_instance(inst):
             # candidate violations on this path
             cands = list(ctx.failed)
             if kind == "exc":
-                cands.append(("uncaught:" + type(out[1]).__name__, model if model is not None else eng.model_for_pc(pc)))
+                cands.append(("uncaught:" + _exc_name(out[1]), model if model is not None else eng.model_for_pc(pc)))
             if model is None:
                 model = eng.model_for_pc(pc)
             # ---- per-path witness validation against the uninstrumented code
@@ -703,6 +709,13 @@ def run_instance(inst):
                         seen_viol.add(key)
                         res["violations"].append(dict(label=label, inputs=enc_inputs(inputs), native=nat["outcome"],
                                                       detail=nat["detail"]))
+                elif _fresh_replay(inst, label, inputs):
+                    # state left behind by the symbolic run itself (module-level caches ...) masked the failure in this process:
+                    # the counterexample reproduces on the real code in a fresh interpreter
+                    if label not in seen_viol or len(res["violations"]) < 3:
+                        seen_viol.add(label)
+                        res["violations"].append(dict(label=label, inputs=enc_inputs(inputs), native="fresh process",
+                                                      detail="reproduced on the uninstrumented code in a fresh interpreter (the outcome depends on state carried between calls)"))
                 else:
                     res["mismatches"].append(dict(inputs=enc_inputs(inputs),
                                                   what=f"counterexample for {label} did not reproduce natively "
@@ -898,6 +911,31 @@ def run_property(pid, instances, tier, seed, meta):
             print("---- crash in", n)
             print(tb)
     return code
+
+
+_FRESH_BUDGET = [6]
+
+
+def _fresh_replay(inst, label, inputs):
+    """replay a candidate counterexample on the real code in a fresh interpreter; True iff the obligation fails there"""
+    import subprocess, tempfile
+    if _FRESH_BUDGET[0] <= 0:
+        return False
+    _FRESH_BUDGET[0] -= 1
+    rp = dict(property=inst["pid"], harness=inst["harness"], name=inst["name"], params=inst["params"], label=label, inputs=enc_inputs(inputs))
+    fd, path = tempfile.mkstemp(prefix="sx-replay-", suffix=".json")
+    try:
+        with os.fdopen(fd, "w") as f:
+            json.dump(rp, f, default=str)
+        r = subprocess.run([sys.executable, "-m", "harness.main", "replay", path], cwd=VERIF, capture_output=True, timeout=300)
+        return r.returncode == 1
+    except Exception:
+        return False
+    finally:
+        try:
+            os.unlink(path)
+        except OSError:
+            pass
 
 
 def replay_file(path, harness_fns):
